@@ -13,7 +13,7 @@ package service
 
 //@ property C02 roots (*service).processPublish, (*service).processIncoming, (*service).processAcked, (*service).onPublish
 //@ property C12 roots (*service).publish, (*service).processIncoming, (*service).processAcked, (*service).subscribe, (*service).subscribe$1, (*service).unsubscribe, (*service).unsubscribe$1, (*service).ping
-//@ property C09 roots (*service).processIncoming, (*service).peekMessageSize, (*service).stop, (*github.com/mdzio/go-mqtt/sessions.Session).Init, (*github.com/mdzio/go-mqtt/sessions.Session).Update
+//@ property C09 roots (*service).processIncoming, (*service).peekMessageSize, (*service).stop, (*github.com/mdzio/go-mqtt/sessions.Session).Init, (*github.com/mdzio/go-mqtt/sessions.Session).Update, (*buffer).ReadFrom, (*service).receiver
 //@ property C10 roots (*Server).getSession, (*service).stop, (*github.com/mdzio/go-mqtt/sessions.Manager).Get, (*github.com/mdzio/go-mqtt/sessions.Manager).Del, (*github.com/mdzio/go-mqtt/sessions.Session).AddTopic, (*github.com/mdzio/go-mqtt/sessions.Session).RemoveTopic, (*service).start
 //@ property C06 roots github.com/mdzio/go-mqtt/topics.nextTopicLevel, (*github.com/mdzio/go-mqtt/topics.Manager).Subscribe, (*github.com/mdzio/go-mqtt/topics.Manager).Unsubscribe, (*github.com/mdzio/go-mqtt/topics.Manager).Subscribers, (*github.com/mdzio/go-mqtt/topics.MemTopics).Subscribe, (*github.com/mdzio/go-mqtt/topics.MemTopics).Unsubscribe, (*github.com/mdzio/go-mqtt/topics.MemTopics).Subscribers, (*github.com/mdzio/go-mqtt/topics.snode).sinsert, (*github.com/mdzio/go-mqtt/topics.snode).sremove, (*github.com/mdzio/go-mqtt/topics.snode).smatch, (*github.com/mdzio/go-mqtt/topics.snode).matchQos, github.com/mdzio/go-mqtt/topics.NewMemProvider, github.com/mdzio/go-mqtt/topics.newSNode, (*github.com/mdzio/go-mqtt/topics.MemTopics).Retain, (*github.com/mdzio/go-mqtt/topics.MemTopics).Retained, (*github.com/mdzio/go-mqtt/topics.rnode).rinsert, (*github.com/mdzio/go-mqtt/topics.rnode).rremove, (*github.com/mdzio/go-mqtt/topics.rnode).rmatch, (*github.com/mdzio/go-mqtt/topics.rnode).allRetained, github.com/mdzio/go-mqtt/topics.newRNode
 //@ property C07 roots (*service).processUnsubscribe, (*service).processSubscribe, (*github.com/mdzio/go-mqtt/message.SubackMessage).AddReturnCodes, (*github.com/mdzio/go-mqtt/message.SubackMessage).AddReturnCode, (*github.com/mdzio/go-mqtt/message.SubscribeMessage).Decode, (*github.com/mdzio/go-mqtt/message.UnsubscribeMessage).Decode, (*github.com/mdzio/go-mqtt/message.SubackMessage).Encode, (*github.com/mdzio/go-mqtt/topics.Manager).Subscribe, (*github.com/mdzio/go-mqtt/topics.Manager).Unsubscribe, (*github.com/mdzio/go-mqtt/topics.MemTopics).Subscribe, (*github.com/mdzio/go-mqtt/topics.MemTopics).Unsubscribe, (*github.com/mdzio/go-mqtt/topics.snode).sinsert, (*github.com/mdzio/go-mqtt/topics.snode).sremove
